@@ -19,14 +19,30 @@ void *vf_malloc(size_t n);
 void  vf_free(void *p);
 void  vf_abort(char *msg);
 
-/* ---- ghost call trace (written only by callee contracts in REPLACE mode) ------------------- */
-extern unsigned g_seq;                   /* global sequence counter */
-#define VF_TRACE_DECL(fn) extern unsigned g_calls_##fn; extern unsigned g_when_##fn;
-#define VF_TRACE_DEF(fn)  unsigned g_calls_##fn; unsigned g_when_##fn;
-/* X-macro list of every callee that keeps a ghost call counter */
+/* ---- ghost call trace (written only by callee contracts in REPLACE mode) -------------------
+ * ONE object g_tr holds a record per traced callee: DFCC's assigns-clause inclusion check is
+ * quadratic in the number of targets, and byte-wise havoc of pointer arrays explodes (both measured),
+ * so each traced callee has ONE small record object g_tr_<fn> (plus the shared counter g_seq). */
+struct vf_tr { unsigned calls, when; long i[6]; const void *p[9]; };
 #define VF_TRACE_LIST(X) \
-    X(input_error)
-VF_TRACE_LIST(VF_TRACE_DECL)
+    X(input_error) X(get_perm_c) X(sp_preorder) X(dgstrf) X(dgstrs) X(dgsequ) X(dlaqgs) X(dgscon) X(dgsrfs) \
+    X(dPivotGrowth) X(dlangs) X(dQuerySpace) X(sp_dtrsv) X(sp_dgemv) X(dgsitrf) X(dldperm) X(dlacon2_) \
+    X(dCreate_CompCol_Matrix) X(dCreate_Dense_Matrix) X(Destroy_CompCol_Permuted) X(Destroy_SuperMatrix_Store) \
+    X(Destroy_SuperNode_Matrix) X(Destroy_CompCol_Matrix) X(mc64ad_) X(genmmd_) X(COLAMD_MAIN) X(dgssv) X(StatInit) X(StatFree) \
+    X(set_default_options) X(dtrsv_) X(dgemv_) X(dtrsm_) X(dgemm_) X(dlsolve) X(dusolve) X(dmatvec) X(misc1) X(misc2) X(misc3)
+#define VF_TR_DECL(fn) extern struct vf_tr g_tr_##fn;
+#define VF_TR_DEF(fn)  struct vf_tr g_tr_##fn;
+extern unsigned g_seq;
+VF_TRACE_LIST(VF_TR_DECL)
+/* in a REPLACE-mode contract:  __CPROVER_assigns(VF_TRACE_ASSIGNS(fn))  __CPROVER_ensures(VF_TRACE_ENSURES(fn)) */
+#define VF_TRACE_ASSIGNS(fn) g_seq, g_tr_##fn
+#define VF_TRACE_ENSURES(fn) (g_tr_##fn.calls == __CPROVER_old(g_tr_##fn.calls) + 1 && g_seq == __CPROVER_old(g_seq) + 1 && g_tr_##fn.when == g_seq)
+#define TRI(fn, k) (g_tr_##fn.i[k])     /* k-th recorded integer argument of the last call */
+#define TRP(fn, k) (g_tr_##fn.p[k])     /* k-th recorded pointer argument of the last call */
+/* in the caller: one assigns target for all traces, and call-count / order predicates */
+#define VF_CALLED(fn, k)   (g_tr_##fn.calls == __CPROVER_old(g_tr_##fn.calls) + (k))
+#define VF_NOT_CALLED(fn)  (g_tr_##fn.calls == __CPROVER_old(g_tr_##fn.calls))
+#define VF_BEFORE(f, g)    (g_tr_##f.when < g_tr_##g.when)
 
 /* ---- floating point: NaN-aware "bitwise unchanged" (modulo sign of zero / NaN payload) ----- */
 #define FEQ(a, b)   (((a) == (b)) || (((a) != (a)) && ((b) != (b))))
@@ -49,6 +65,23 @@ VF_TRACE_LIST(VF_TRACE_DECL)
 #define WHOLE(p)  __CPROVER_object_whole(p)
 #define UPTO(p,n) __CPROVER_object_upto((p), (n))
 #define FROM(p)   __CPROVER_object_from(p)
+
+/* ---- SuperMatrix store views and shape predicates -------------------------------------------- */
+#define ST_NC(A)  ((NCformat *)(A)->Store)
+#define ST_NR(A)  ((NRformat *)(A)->Store)
+#define ST_DN(A)  ((DNformat *)(A)->Store)
+#define ST_SC(A)  ((SCformat *)(A)->Store)
+#define ST_NCP(A) ((NCPformat *)(A)->Store)
+#ifndef PHCAP
+#define PHCAP 32          /* capacity of stat->panel_histo (the library allocates panel_size+1) */
+#endif
+#define FRESH_STAT(stat) (FRESH((stat), sizeof(SuperLUStat_t)) && FRESH((stat)->utime, NPHASES * sizeof(double)) \
+        && FRESH((stat)->ops, NPHASES * sizeof(flops_t)) && FRESH((stat)->panel_histo, PHCAP * sizeof(int)))
+#define ASSIGNS_STAT(stat) (stat)->TinyPivots, (stat)->RefineSteps, (stat)->expansions, __CPROVER_object_upto((stat)->utime, NPHASES * sizeof(double)), __CPROVER_object_upto((stat)->ops, NPHASES * sizeof(flops_t)), \
+        __CPROVER_object_upto((stat)->panel_histo, PHCAP * sizeof(int))
+/* number of heap blocks owned by a factor pair (L,U) produced with lwork == 0:
+ * L->Store, U->Store, xsup, supno, lsub, xlsub, lusup, xlusup, ucol, usub, xusub */
+#define VF_LU_BLOCKS 11
 
 /* C99 math used by the library, without the libm call */
 #ifdef SUPERLU_VERIF
